@@ -339,3 +339,41 @@ txoutwitness_harness!(txoutwitness_both, 2, 3);
 //@ harness: txoutwitness_range_only class=B tier=thorough bound="no surjection proof, range proof 2 bytes" timeout=900
 //@ clause: same with only a range proof
 txoutwitness_harness!(txoutwitness_range_only, 0, 2);
+
+// ---- experiments (to be removed) ----
+fn spin(n: u64) { let mut i = 0u64; let mut s = 0u64; while i < n { s += 1; i += 1; } assert!(s == n); }
+#[kani::proof]
+fn exp_e1_cursor_read_exact() {
+    use std::io::Read;
+    let buf = [0u8, 2u8, 0u8, 0u8, 0u8];
+    let mut c = std::io::Cursor::new(&buf[..]);
+    let mut one = [0u8; 1];
+    let _ = c.read_exact(&mut one);
+    let _ = c.read_exact(&mut one);
+    spin(one[0] as u64);
+}
+#[kani::proof]
+fn exp_e2_slice_read_exact() {
+    use std::io::Read;
+    let buf = [0u8, 2u8, 0u8, 0u8, 0u8];
+    let mut r = &buf[..];
+    let mut one = [0u8; 1];
+    let _ = r.read_exact(&mut one);
+    let _ = r.read_exact(&mut one);
+    spin(one[0] as u64);
+}
+#[kani::proof]
+fn exp_e3_read_u8() {
+    use crate::ReadExt;
+    let buf = [0u8, 2u8, 0u8, 0u8, 0u8];
+    let mut c = std::io::Cursor::new(&buf[..]);
+    let _ = c.read_u8();
+    match c.read_u8() { Ok(n) => spin(n as u64), Err(e) => forget(e) }
+}
+#[kani::proof]
+fn exp_e4_plain_index() {
+    let buf = [0u8, 2u8, 0u8, 0u8, 0u8];
+    let s = &buf[..];
+    let (a, _b) = s.split_at(2);
+    spin(a[1] as u64);
+}
